@@ -191,6 +191,8 @@ def canon(e, rename, depth=0, rewrite=None, pname=None):
         return "%s(%s, %s)" % (op, a, b)
     if k == "unop":
         return "%s(%s)" % (e[1], c(e[2]))
+    if k == "pcall" and e[1] == "<[T]>::is_empty" and len(e[2]) == 1:
+        return c(("binop", "Eq", ("pcall", "<[T]>::len", e[2]), ("int", 0)))
     if k in ("call", "pcall"):
         name = e[1] if isinstance(e[1], str) else "indirect"
         name = rename(name)
@@ -199,6 +201,8 @@ def canon(e, rename, depth=0, rewrite=None, pname=None):
         args = [c(a) for a in e[2]]
         if k == "pcall" and name.split("::")[-1] in ("min", "max"):
             args = sorted(args)  # symmetric
+            if name in ("core::cmp::min", "core::cmp::Ord::min", "<usize>::min", "core::cmp::max", "core::cmp::Ord::max", "<usize>::max"):
+                name = "usize::" + name.split("::")[-1]  # one function, three spellings
         return "%s(%s)" % (name, ", ".join(args))
     if k == "cast" or k == "unsize":
         return c(e[2] if k == "cast" else e[1])
@@ -244,6 +248,9 @@ def _positive_form(d, rename=_ID):
     swapped = False
     while True:
         d = mir.strip_casts(d)
+        if isinstance(d, tuple) and d and d[0] == "pcall" and d[1] == "<[T]>::is_empty" and len(d[2]) == 1:
+            d = ("binop", "Eq", ("pcall", "<[T]>::len", d[2]), ("int", 0))  # `s.is_empty()` is `s.len() == 0`
+            continue
         if isinstance(d, tuple) and d and d[0] == "unop" and d[1] == "Not":
             d, swapped = d[2], not swapped
             continue
@@ -265,7 +272,8 @@ def positive_branches(f, x, rename=_ID):
         return None
     n = len(f.blocks[x]["stmts"])
     d = f.deep_simplify(f.operand_expr(t["discr"], x, n))
-    if not (isinstance(mir.strip_casts(d), tuple) and mir.strip_casts(d)[0] in ("binop", "unop")):
+    d0 = mir.strip_casts(d)
+    if not (isinstance(d0, tuple) and (d0[0] in ("binop", "unop") or d0[:2] == ("pcall", "<[T]>::is_empty"))):
         return None
     v = int(t["targets"][0][0])
     false_b, true_b = (t["targets"][0][1], t["otherwise"]) if v == 0 else (t["otherwise"], t["targets"][0][1])
